@@ -56,7 +56,7 @@ theorem foldl_apply_create (ws : List W) (g : SGraph) (hc : ∀ w ∈ ws, w.isCr
     | setProp _ _ _ => simp [W.isCreate] at hw
     | addLabel _ _ => simp [W.isCreate] at hw
     | remLabel _ _ => simp [W.isCreate] at hw
-    | delNode _ => simp [W.isCreate] at hw
+    | delNode _ _ => simp [W.isCreate] at hw
     | delEdge _ => simp [W.isCreate] at hw
 
 /-! ### the invariant -/
